@@ -1,1 +1,469 @@
 import FluentModel.Resolver
+/-!
+# Invariants of the resolver model (C06, part 1): the placeable counter, `dirty`, the error log, no panic
+
+Everything is proved for every fuel, every `Env`, every AST (parser-produced or not), every scope and
+writer, by one induction on the fuel over the ten functions of the mutual block.
+
+`Step a b` relates the scope before a call to the scope after it; `Good env sc r` says what a result
+`r` of a call started in scope `sc` satisfies: `.ok` → `Step`, `.panic` → the start scope was not
+`ScopeOk` or the plural rules are partial, `.fuel` → nothing.
+
+Parametric in `Generated.maxPlaceables`: only `hmax : Generated.maxPlaceables ≤ 254` is used.
+-/
+namespace FluentProofs.Resolver
+open FluentModel FluentModel.Syntax FluentModel.Resolver
+
+/-- the counter is within the limit, or it is exactly one past the limit and the guard has tripped -/
+def ScopeOk (sc : Scope) : Prop :=
+  sc.placeables ≤ Generated.maxPlaceables ∨
+    (sc.placeables = Generated.maxPlaceables + 1 ∧ sc.dirty = true)
+
+/-- 1 when `dirty` flips from `false` to `true` between `a` and `b`, else 0 -/
+def flip (a b : Scope) : Nat := if a.dirty = false ∧ b.dirty = true then 1 else 0
+
+/-- what every call of the mutual block does to the scope -/
+structure Step (a b : Scope) : Prop where
+  /-- the counter invariant is preserved -/
+  ok : ScopeOk a → ScopeOk b
+  /-- the counter never decreases -/
+  placeables : a.placeables ≤ b.placeables
+  /-- `dirty` is never reset -/
+  dirty : a.dirty = true → b.dirty = true
+  /-- the log only grows, and `tooManyPlaceables` is appended exactly when `dirty` flips -/
+  errors : ∃ l, b.errors = a.errors ++ l ∧ l.count RErr.tooManyPlaceables = flip a b
+
+/-- the three fields `Step`/`ScopeOk` talk about agree -/
+def Same (a b : Scope) : Prop := a.placeables = b.placeables ∧ a.dirty = b.dirty ∧ a.errors = b.errors
+
+theorem ScopeOk.congr {a b : Scope} (h : Same a b) : ScopeOk a → ScopeOk b := by
+  obtain ⟨h1, h2, _⟩ := h
+  unfold ScopeOk; rw [h1, h2]; exact id
+
+theorem Same.symm {a b : Scope} (h : Same a b) : Same b a := ⟨h.1.symm, h.2.1.symm, h.2.2.symm⟩
+
+theorem Step.congr {a a' b b' : Scope} (h : Step a b) (ha : Same a a') (hb : Same b b') : Step a' b' := by
+  obtain ⟨l, h1, h2⟩ := h.errors
+  refine ⟨fun x => ScopeOk.congr hb (h.ok (ScopeOk.congr ha.symm x)), ?_, ?_, l, ?_, ?_⟩
+  · rw [← ha.1, ← hb.1]; exact h.placeables
+  · rw [← ha.2.1, ← hb.2.1]; exact h.dirty
+  · rw [← ha.2.2, ← hb.2.2]; exact h1
+  · unfold flip at *; rw [← ha.2.1, ← hb.2.1]; exact h2
+
+theorem Step.refl (a : Scope) : Step a a :=
+  ⟨id, Nat.le_refl _, id, [], by simp, by cases h : a.dirty <;> simp [flip, h]⟩
+
+theorem Step.trans {a b c : Scope} (h1 : Step a b) (h2 : Step b c) : Step a c := by
+  obtain ⟨l1, e1, c1⟩ := h1.errors
+  obtain ⟨l2, e2, c2⟩ := h2.errors
+  refine ⟨fun x => h2.ok (h1.ok x), Nat.le_trans h1.placeables h2.placeables, fun x => h2.dirty (h1.dirty x),
+    l1 ++ l2, by rw [e2, e1, List.append_assoc], ?_⟩
+  rw [List.count_append, c1, c2]
+  have d1 := h1.dirty
+  have d2 := h2.dirty
+  unfold flip
+  cases ha : a.dirty <;> cases hb : b.dirty <;> cases hc : c.dirty <;> simp_all
+
+/-- pushing an error other than `tooManyPlaceables` -/
+theorem Step.addError (a : Scope) (e : RErr) (he : e ≠ .tooManyPlaceables) : Step a (a.addError e) := by
+  refine ⟨id, Nat.le_refl _, id, [e], rfl, ?_⟩
+  have : (a.addError e).dirty = a.dirty := rfl
+  unfold flip; rw [this]
+  cases h : a.dirty <;> simp [he]
+
+/-- the specification of a result of a call started in `sc` -/
+def Good (env : Env) (sc : Scope) {α : Type} (r : RR (α × Scope)) : Prop :=
+  match r with
+  | .ok p => Step sc p.2
+  | .panic _ => ScopeOk sc → ∃ n, env.category n = none
+  | .fuel => True
+
+@[simp] theorem good_ok (env : Env) (sc : Scope) {α : Type} (x : α) (sc' : Scope) :
+    Good env sc (RR.ok (x, sc')) = Step sc sc' := rfl
+@[simp] theorem good_panic (env : Env) (sc : Scope) {α : Type} (m : String) :
+    Good env sc (RR.panic m : RR (α × Scope)) = (ScopeOk sc → ∃ n, env.category n = none) := rfl
+@[simp] theorem good_fuel (env : Env) (sc : Scope) {α : Type} :
+    Good env sc (RR.fuel : RR (α × Scope)) = True := rfl
+
+theorem Good.trans {env : Env} {a b : Scope} {α : Type} {r : RR (α × Scope)} (h : Step a b)
+    (g : Good env b r) : Good env a r := by
+  cases r with
+  | ok p => exact h.trans g
+  | panic m => exact fun x => g (h.ok x)
+  | fuel => trivial
+
+theorem Good.step_of_ok {env : Env} {a b : Scope} {α : Type} {r : RR (α × Scope)} {x : α}
+    (g : Good env a r) (hr : r = .ok (x, b)) : Step a b := by
+  subst hr; exact g
+
+theorem Good.not_panic {env : Env} {a : Scope} {α : Type} {r : RR (α × Scope)} {m : String}
+    (g : Good env a r) (hok : ScopeOk a) (hcat : ∀ n, env.category n ≠ none) : r ≠ .panic m := by
+  intro hr; subst hr
+  obtain ⟨k, hk⟩ := g hok
+  exact hcat k hk
+
+/-- results of different payload types carry the same obligations when the `panic`/`fuel` arms are
+passed through -/
+theorem Good.panic_cast {env : Env} {a : Scope} {α β : Type} {m : String}
+    (g : Good env a (RR.panic m : RR (α × Scope))) : Good env a (RR.panic m : RR (β × Scope)) := g
+
+/-! ## the non-recursive helpers -/
+
+theorem valueMatches_none {env : Env} {k s : Value} (h : valueMatches env k s = none) :
+    ∃ n, env.category n = none := by
+  unfold valueMatches at h
+  split at h <;> try (simp at h)
+  split at h
+  · simp at h
+  · rename_i b _ _ _
+    refine ⟨b, ?_⟩
+    cases hc : env.category b with
+    | none => rfl
+    | some c => simp [hc] at h
+
+theorem selectVariant_spec (env : Env) (vs : List (Variant Bytes)) (sel : Value) :
+    match selectVariant env vs sel with
+    | .ok _ => True
+    | .panic _ => ∃ n, env.category n = none
+    | .fuel => False := by
+  induction vs with
+  | nil => simp [selectVariant]
+  | cons v rest ih =>
+    obtain ⟨key, value, d⟩ := v
+    have key' : ∀ kv : Value,
+        match (match valueMatches env kv sel with
+          | none => (RR.panic "plural rules unwrap" : RR (Option (Pattern Bytes)))
+          | some true => RR.ok (some value)
+          | some false => selectVariant env rest sel) with
+        | .ok _ => True
+        | .panic _ => ∃ n, env.category n = none
+        | .fuel => False := by
+      intro kv
+      cases hv : valueMatches env kv sel with
+      | none => exact valueMatches_none hv
+      | some b =>
+        cases b with
+        | true => trivial
+        | false => exact ih
+    simp only [selectVariant]
+    exact key' _
+
+theorem selectVariant_ne_fuel (env : Env) (vs : List (Variant Bytes)) (sel : Value) :
+    selectVariant env vs sel ≠ .fuel := by
+  have := selectVariant_spec env vs sel
+  intro h; rw [h] at this; exact this
+
+theorem writeRefError_good (w : Bytes) (sc : Scope) (e : Inline Bytes) (k : RefKind)
+    (hk : refKindOf e = some k) :
+    writeRefError w sc e = .ok (w ++ braced (inlineWriteError e), sc.addError (.reference k)) := by
+  simp [writeRefError, hk]
+
+/-! ## the joint statement at fuel `n` and its induction -/
+
+structure Inv (env : Env) (n : Nat) : Prop where
+  writeElems : ∀ whole len els w sc, Good env sc (writeElems env n whole len els w sc)
+  writePattern : ∀ p w sc, Good env sc (writePattern env n p w sc)
+  track : ∀ p e w sc, Good env sc (track env n p e w sc)
+  writeExpr : ∀ e w sc, Good env sc (writeExpr env n e w sc)
+  writeDefault : ∀ vs w sc, Good env sc (writeDefault env n vs w sc)
+  writeInline : ∀ e w sc, Good env sc (writeInline env n e w sc)
+  resolveInline : ∀ e sc, Good env sc (resolveInline env n e sc)
+  getArguments : ∀ a sc, Good env sc (getArguments env n a sc)
+  resolveList : ∀ es sc, Good env sc (resolveList env n es sc)
+  resolveNamed : ∀ es sc, Good env sc (resolveNamed env n es sc)
+
+theorem inv_zero (env : Env) : Inv env 0 := by
+  constructor <;> intros <;> simp [writeElems, writePattern, track, writeExpr, writeDefault, writeInline,
+    resolveInline, getArguments, resolveList, resolveNamed]
+
+section step
+variable {env : Env} {n : Nat} (hmax : Generated.maxPlaceables ≤ 254) (IH : Inv env n)
+include IH
+
+theorem writePattern_step (p : Pattern Bytes) (w : Bytes) (sc : Scope) :
+    Good env sc (writePattern env (n + 1) p w sc) := by
+  simp only [writePattern]; exact IH.writeElems _ _ _ _ _
+
+theorem writeDefault_step (vs : List (Variant Bytes)) (w : Bytes) (sc : Scope) :
+    Good env sc (writeDefault env (n + 1) vs w sc) := by
+  simp only [writeDefault]
+  split
+  · exact IH.writePattern _ _ _
+  · simp only [good_ok]; exact Step.addError _ _ (by simp)
+
+theorem track_step (p : Pattern Bytes) (e : Inline Bytes) (w : Bytes) (sc : Scope) :
+    Good env sc (track env (n + 1) p e w sc) := by
+  simp only [track]
+  split
+  · simp only [good_ok]; exact Step.addError _ _ (by simp)
+  · have h := IH.writePattern p w { sc with travelled := sc.travelled ++ [p] }
+    rcases hr : writePattern env n p w { sc with travelled := sc.travelled ++ [p] } with ⟨⟨w1, sc1⟩⟩ | ⟨m⟩ | _
+    · rw [hr] at h; simp only [good_ok] at h ⊢
+      exact h.congr ⟨rfl, rfl, rfl⟩ ⟨rfl, rfl, rfl⟩
+    · rw [hr] at h; simp only [good_panic] at h ⊢
+      exact fun x => h (ScopeOk.congr ⟨rfl, rfl, rfl⟩ x)
+    · trivial
+
+include hmax in
+theorem writeElems_step (whole : Pattern Bytes) (len : Nat) (els : List (PatElem Bytes)) (w : Bytes) (sc : Scope) :
+    Good env sc (writeElems env (n + 1) whole len els w sc) := by
+  cases els with
+  | nil => simp only [writeElems, good_ok]; exact Step.refl _
+  | cons el rest =>
+    cases el with
+    | text v =>
+      simp only [writeElems]
+      split
+      · simp only [good_ok]; exact Step.refl _
+      · exact IH.writeElems _ _ _ _ _
+    | placeable e =>
+      simp only [writeElems]
+      split
+      · simp only [good_ok]; exact Step.refl _
+      rename_i hd
+      have hd : sc.dirty = false := by cases h : sc.dirty <;> simp_all
+      split
+      · rename_i h255
+        simp only [good_panic]
+        intro hok
+        rcases hok with h | ⟨_, h⟩
+        · omega
+        · rw [hd] at h; cases h
+      split
+      · rename_i hgt
+        simp only [good_ok]
+        refine ⟨?_, ?_, ?_, [RErr.tooManyPlaceables], rfl, ?_⟩
+        · intro hok
+          rcases hok with h | ⟨_, h⟩
+          · have hgt' : sc.placeables + 1 > Generated.maxPlaceables := hgt
+            right; exact ⟨by show sc.placeables + 1 = _; omega, rfl⟩
+          · rw [hd] at h; cases h
+        · show sc.placeables ≤ sc.placeables + 1; omega
+        · intro _; rfl
+        · have : (Scope.addError { sc with placeables := sc.placeables + 1, dirty := true } RErr.tooManyPlaceables).dirty = true := rfl
+          simp [flip, hd, this]
+      · rename_i hle
+        have hle' : ¬ sc.placeables + 1 > Generated.maxPlaceables := hle
+        -- the scope handed to the expression
+        generalize hsc2 : (if ({ sc with placeables := sc.placeables + 1 } : Scope).travelled.isEmpty = true
+          then { sc with placeables := sc.placeables + 1, travelled := [whole] }
+          else { sc with placeables := sc.placeables + 1 }) = sc2
+        have hsame : Same { sc with placeables := sc.placeables + 1 } sc2 := by
+          rw [← hsc2]; split <;> exact ⟨rfl, rfl, rfl⟩
+        have hstep : Step sc sc2 := by
+          refine Step.congr (?_ : Step sc { sc with placeables := sc.placeables + 1 }) ⟨rfl, rfl, rfl⟩ hsame
+          refine ⟨fun _ => Or.inl (by show sc.placeables + 1 ≤ _; omega), by show sc.placeables ≤ sc.placeables + 1; omega,
+            id, [], by simp, ?_⟩
+          have : ({ sc with placeables := sc.placeables + 1 } : Scope).dirty = sc.dirty := rfl
+          simp [flip, hd]
+        have h := IH.writeExpr e (if (env.useIsolating && decide (len > 1) && isolatable e) = true then w ++ fsi else w) sc2
+        rcases hr : writeExpr env n e (if (env.useIsolating && decide (len > 1) && isolatable e) = true then w ++ fsi else w) sc2
+          with ⟨⟨w2, sc3⟩⟩ | ⟨m⟩ | _
+        · rw [hr] at h; simp only [good_ok] at h
+          simp only []
+          exact Good.trans (hstep.trans h) (IH.writeElems _ _ _ _ _)
+        · rw [hr] at h
+          exact Good.trans hstep h
+        · trivial
+
+theorem select_tail (vs : List (Variant Bytes)) (w : Bytes) (sc1 : Scope) (selector : Value) :
+    Good env sc1 (match selectVariant env vs selector with
+      | .ok (some v) => writePattern env n v w sc1
+      | .ok .none => writeDefault env n vs w sc1
+      | .panic m => .panic m
+      | .fuel => .fuel) := by
+  have hs := selectVariant_spec env vs selector
+  rcases hr : selectVariant env vs selector with ⟨_ | v⟩ | ⟨m⟩ | _
+  · exact IH.writeDefault _ _ _
+  · exact IH.writePattern _ _ _
+  · rw [hr] at hs; exact fun _ => hs
+  · trivial
+
+theorem writeExpr_step (e : Expr Bytes) (w : Bytes) (sc : Scope) :
+    Good env sc (writeExpr env (n + 1) e w sc) := by
+  cases e with
+  | inline e => simp only [writeExpr]; exact IH.writeInline _ _ _
+  | select sel vs =>
+    simp only [writeExpr]
+    have h := IH.resolveInline sel sc
+    rcases hr : resolveInline env n sel sc with ⟨⟨selector, sc1⟩⟩ | ⟨m⟩ | _
+    · rw [hr] at h; simp only [good_ok] at h
+      refine Good.trans h ?_
+      cases selector with
+      | str b => exact select_tail IH vs w sc1 _
+      | num b => exact select_tail IH vs w sc1 _
+      | custom t => exact IH.writeDefault _ _ _
+      | none => exact IH.writeDefault _ _ _
+      | error => exact IH.writeDefault _ _ _
+    · rw [hr] at h; exact h
+    · trivial
+
+theorem getArguments_step
+    (a : Option (List (Inline Bytes) × List (Bytes × Inline Bytes))) (sc : Scope) :
+    Good env sc (getArguments env (n + 1) a sc) := by
+  cases a with
+  | none => simp only [getArguments, good_ok]; exact Step.refl _
+  | some pn =>
+    obtain ⟨pos, named⟩ := pn
+    simp only [getArguments]
+    have h := IH.resolveList pos sc
+    rcases hr : resolveList env n pos sc with ⟨⟨vs, sc1⟩⟩ | ⟨m⟩ | _
+    · rw [hr] at h; simp only [good_ok] at h
+      refine Good.trans h ?_
+      simp only []
+      have h2 := IH.resolveNamed named sc1
+      rcases hr2 : resolveNamed env n named sc1 with ⟨⟨ns, sc2⟩⟩ | ⟨m⟩ | _
+      · rw [hr2] at h2; simp only [good_ok] at h2 ⊢; exact h2
+      · rw [hr2] at h2; simp only [good_panic] at h2 ⊢; exact h2
+      · trivial
+    · rw [hr] at h; exact h
+    · trivial
+
+theorem resolveList_step (es : List (Inline Bytes)) (sc : Scope) :
+    Good env sc (resolveList env (n + 1) es sc) := by
+  cases es with
+  | nil => simp only [resolveList, good_ok]; exact Step.refl _
+  | cons e es =>
+    simp only [resolveList]
+    have h := IH.resolveInline e sc
+    rcases hr : resolveInline env n e sc with ⟨⟨v, sc1⟩⟩ | ⟨m⟩ | _
+    · rw [hr] at h; simp only [good_ok] at h
+      refine Good.trans h ?_
+      simp only []
+      have h2 := IH.resolveList es sc1
+      rcases hr2 : resolveList env n es sc1 with ⟨⟨vs, sc2⟩⟩ | ⟨m⟩ | _
+      · rw [hr2] at h2; simp only [good_ok] at h2 ⊢; exact h2
+      · rw [hr2] at h2; simp only [good_panic] at h2 ⊢; exact h2
+      · trivial
+    · rw [hr] at h; exact h
+    · trivial
+
+theorem resolveNamed_step (es : List (Bytes × Inline Bytes)) (sc : Scope) :
+    Good env sc (resolveNamed env (n + 1) es sc) := by
+  cases es with
+  | nil => simp only [resolveNamed, good_ok]; exact Step.refl _
+  | cons ke es =>
+    obtain ⟨k, e⟩ := ke
+    simp only [resolveNamed]
+    have h := IH.resolveInline e sc
+    rcases hr : resolveInline env n e sc with ⟨⟨v, sc1⟩⟩ | ⟨m⟩ | _
+    · rw [hr] at h; simp only [good_ok] at h
+      refine Good.trans h ?_
+      simp only []
+      have h2 := IH.resolveNamed es sc1
+      rcases hr2 : resolveNamed env n es sc1 with ⟨⟨vs, sc2⟩⟩ | ⟨m⟩ | _
+      · rw [hr2] at h2; simp only [good_ok] at h2 ⊢; exact h2
+      · rw [hr2] at h2; simp only [good_panic] at h2 ⊢; exact h2
+      · trivial
+    · rw [hr] at h; exact h
+    · trivial
+
+omit IH in
+/-- `r` is a `track` or `write_ref_error` result; the caller restores `local_args` -/
+theorem restore_good {sc2 : Scope} {r : RR (Bytes × Scope)} (outer : Option ArgList) (h : Good env sc2 r) :
+    Good env sc2 (match r with
+      | .ok (w1, sc3) => .ok (w1, { sc3 with localArgs := outer })
+      | .panic m => .panic m
+      | .fuel => .fuel) := by
+  rcases r with ⟨⟨w1, sc3⟩⟩ | ⟨m⟩ | _
+  · simp only [good_ok] at h ⊢; exact h.congr ⟨rfl, rfl, rfl⟩ ⟨rfl, rfl, rfl⟩
+  · exact h
+  · trivial
+
+theorem writeInline_step (e : Inline Bytes) (w : Bytes) (sc : Scope) :
+    Good env sc (writeInline env (n + 1) e w sc) := by
+  cases e with
+  | str v => simp only [writeInline, good_ok]; exact Step.refl _
+  | num v => simp only [writeInline, good_ok]; exact Step.refl _
+  | msg id attr =>
+    simp only [writeInline]
+    repeat' split
+    all_goals first
+      | exact IH.track _ _ _ _
+      | (rw [writeRefError_good _ _ _ _ rfl]; simp only [good_ok]; exact Step.addError _ _ (by simp))
+      | (simp only [good_ok]; exact Step.addError _ _ (by simp))
+  | term id attr args =>
+    simp only [writeInline]
+    have h := IH.getArguments args sc
+    rcases hr : getArguments env n args sc with ⟨⟨⟨rp, named⟩, sc1⟩⟩ | ⟨m⟩ | _
+    · rw [hr] at h; simp only [good_ok] at h
+      refine Good.trans h ?_
+      simp only []
+      refine Good.trans (b := { sc1 with localArgs := some named })
+        ((Step.refl sc1).congr ⟨rfl, rfl, rfl⟩ ⟨rfl, rfl, rfl⟩) ?_
+      apply restore_good
+      split
+      · exact IH.track _ _ _ _
+      · rw [writeRefError_good _ _ _ _ rfl]; simp only [good_ok]; exact Step.addError _ _ (by simp)
+    · rw [hr] at h; exact h
+    · trivial
+  | fn id pos named =>
+    simp only [writeInline]
+    have h := IH.getArguments (some (pos, named)) sc
+    rcases hr : getArguments env n (some (pos, named)) sc with ⟨⟨⟨rp, rn⟩, sc1⟩⟩ | ⟨m⟩ | _
+    · rw [hr] at h; simp only [good_ok] at h
+      refine Good.trans h ?_
+      simp only []
+      split
+      · split <;> (simp only [good_ok]; exact Step.refl _)
+      · rw [writeRefError_good _ _ _ _ rfl]; simp only [good_ok]; exact Step.addError _ _ (by simp)
+    · rw [hr] at h; exact h
+    · trivial
+  | var id =>
+    simp only [writeInline]
+    split
+    · simp only [good_ok]; exact Step.refl _
+    · simp only [good_ok]
+      split
+      · exact Step.addError _ _ (by simp)
+      · exact Step.refl _
+  | placeable e => simp only [writeInline]; exact IH.writeExpr _ _ _
+
+theorem resolveInline_step (e : Inline Bytes) (sc : Scope) :
+    Good env sc (resolveInline env (n + 1) e sc) := by
+  have viaWrite : Good env sc (match writeInline env n e [] sc with
+      | .ok (w, sc1) => (.ok (.str w, sc1) : RR (Value × Scope))
+      | .panic m => .panic m
+      | .fuel => .fuel) := by
+    have h := IH.writeInline e [] sc
+    rcases hr : writeInline env n e [] sc with ⟨⟨w, sc1⟩⟩ | ⟨m⟩ | _
+    · rw [hr] at h; exact h
+    · rw [hr] at h; exact h
+    · trivial
+  cases e with
+  | str v => simp only [resolveInline, good_ok]; exact Step.refl _
+  | num v => simp only [resolveInline, good_ok]; exact Step.refl _
+  | var id =>
+    simp only [resolveInline]
+    repeat' split
+    all_goals first
+      | (simp only [good_ok]; exact Step.refl _)
+      | (simp only [good_ok]; exact Step.addError _ _ (by simp))
+  | fn id pos named =>
+    simp only [resolveInline]
+    have h := IH.getArguments (some (pos, named)) sc
+    rcases hr : getArguments env n (some (pos, named)) sc with ⟨⟨⟨rp, rn⟩, sc1⟩⟩ | ⟨m⟩ | _
+    · rw [hr] at h; simp only [good_ok] at h
+      refine Good.trans h ?_
+      simp only []
+      split
+      · simp only [good_ok]; exact Step.refl _
+      · simp only [good_ok]; exact Step.addError _ _ (by simp)
+    · rw [hr] at h; exact h
+    · trivial
+  | msg id attr => simp only [resolveInline]; exact viaWrite
+  | term id attr args => simp only [resolveInline]; exact viaWrite
+  | placeable e => simp only [resolveInline]; exact viaWrite
+
+end step
+
+/-- **the joint invariant holds at every fuel** -/
+theorem inv_all (hmax : Generated.maxPlaceables ≤ 254) (env : Env) : ∀ n, Inv env n := by
+  intro n
+  induction n with
+  | zero => exact inv_zero env
+  | succ n IH =>
+    exact ⟨writeElems_step hmax IH, writePattern_step IH, track_step IH, writeExpr_step IH, writeDefault_step IH,
+      writeInline_step IH, resolveInline_step IH, getArguments_step IH, resolveList_step IH, resolveNamed_step IH⟩
+
+end FluentProofs.Resolver
